@@ -3,7 +3,7 @@
     weights and unit lists compute: they are the regenerated coq/gen/Tables.v) and over the
     integer comparisons on the period size. *)
 From Coq Require Import ZArith List Bool Lia.
-From Verif Require Import Base Cal Tables Period Engine Guards GuardsSem.
+From Verif Require Import Base Cal Tables Period Engine GuardsTypes Guards GuardsSem.
 Import ListNotations.
 Open Scope Z_scope.
 
